@@ -457,6 +457,9 @@ pub fn built_ins(simple_expandafter: bool) -> HashMap<&'static str, command::Bui
     m.remove("dumpValidate");
     if simple_expandafter {
         m.insert("expandafter", expansion::get_expandafter_simple());
+    } else {
+        // explicit, so that the comparison stays optimised-vs-simple whatever the stdlib default is
+        m.insert("expandafter", expansion::get_expandafter_optimized());
     }
     m.insert("vpcapture", command::BuiltIn::new_execution(vpcapture_fn));
     m.insert("vpfont", command::BuiltIn::new_execution(vpfont_fn));
